@@ -504,7 +504,8 @@ func runC16(w *fw.W) {
 
 	// (2) token length
 	var ip *interp.Interp
-	tokKinds := []string{"string", "raw-string", "comment", "identifier", "symbol", "int-leading-zeros", "embedded-piece", "private-identifier", "trailing-comment-eof"}
+	tokKinds := []string{"string", "raw-string", "comment", "identifier", "symbol", "int-leading-zeros", "embedded-piece", "private-identifier", "trailing-comment-eof",
+		"identifier-pair", "string-pair", "key-pair", "symbol-pair", "identifier-pair-middle"}
 	for _, tk := range tokKinds {
 		tk := tk
 		runBatch("token length "+tk, func(vs *violSet, dk map[string]struct{}, counters map[string]int, sample *string) {
@@ -538,6 +539,17 @@ func runC16(w *fw.W) {
 						src, wantIns = prefix+strings.Repeat("0", L)+"42", "42"
 					case "embedded-piece":
 						src, wantIns = prefix+`"`+body+`#{1}`+body+`#{2}`+body+`"`, `"`+body+"1"+body+"2"+body+`"`
+					// two long tokens that differ in one character only are two different names / strings (full text)
+					case "identifier-pair":
+						src, wantIns = prefix+body+"x := 1; "+body+"y := 2; ["+body+"x, "+body+"y]", "[1, 2]"
+					case "identifier-pair-middle":
+						src, wantIns = prefix+"p"+body+"x"+body+" := 1; p"+body+"y"+body+" := 2; [p"+body+"x"+body+", p"+body+"y"+body+"]", "[1, 2]"
+					case "string-pair":
+						src, wantIns = prefix+`["`+body+`x" == "`+body+`y", "`+body+`x" == "`+body+`x", %{"`+body+`x": 1, "`+body+`y": 2}.len]`, "[false, true, 2]"
+					case "key-pair":
+						src, wantIns = prefix+"o := {"+body+"x: 1, "+body+"y: 2}; [o.keys.len, o."+body+"x, o."+body+"y]", "[2, 1, 2]"
+					case "symbol-pair":
+						src, wantIns = prefix+"['"+body+"x == '"+body+"y, {"+body+"x: 5}['"+body+"y]]", "[false, nil]"
 					}
 					w.Note(fmt.Sprintf("%s L=%d shift=%d", tk, L, shift))
 					o := ip.Run(src, interp.Options{})
@@ -629,6 +641,9 @@ func runC16(w *fw.W) {
 				case "embedded-piece":
 					lines = []string{`s := "#{1}` + body + `#{2}"`, "s.len.p"}
 				case "many-tokens-one-line":
+					if L > 70000 {
+						continue // every token keeps a copy of its (whole) line: memory grows with tokens × line length
+					}
 					// (elements of 100 bytes: the parser's cost grows quadratically with the element count, which is not this property's subject)
 					lines = []string{"s := [" + strings.Repeat(`"`+strings.Repeat("e", 96)+`", `, L/100) + "1]", "s.len.p"}
 				case "many-short-lines":
